@@ -142,8 +142,13 @@ func (p *c01) RunCase(ctx *runner.Ctx) runner.CaseResult {
 		if combo/2 == 1 {
 			spec = mon.SpecHashRange("tbl01")
 		}
+		// two near-colliding key pairs (separator '.' and escape character '\\'), alternating by block
 		k0 := mon.KeyFor(spec, "a.b", "c")
 		k1 := mon.KeyFor(spec, "a", "b.c")
+		if block%2 == 1 {
+			k0 = mon.KeyFor(spec, "a\\", ".b")
+			k1 = mon.KeyFor(spec, "a.", "b")
+		}
 		total := c01ExhaustiveCount(tier)
 		for seq := block * c01Block; seq < (block+1)*c01Block && seq < total; seq++ {
 			dec := c01Decode(seq, tier)
